@@ -72,9 +72,27 @@ CREATE = {"op": "create"}
 LEASE = {"op": "lease"}   # an http client opened a fullsync on the sink without a sync id and went away (lease = 1 s)
 
 
-def mk(ops, batch=2, los=(False,), union=False, handlers=(), sink="dataset", srchttp=False):
+def mk(ops, batch=2, los=(False,), union=False, handlers=(), sink="dataset", srchttp=False, dropids=()):
     return {"members": len(los), "union": union, "los": list(los), "batch": batch, "handlers": list(handlers),
-            "sink": sink, "srchttp": srchttp, "ops": ops}
+            "sink": sink, "srchttp": srchttp, "dropids": list(dropids), "ops": ops}
+
+
+def drop_cases():
+    """A filtering transform (Go stub) that drops one COMPLETE page k of the source, with entities following, for
+    several batch sizes; fullsync and incremental, fault-free, every id written once, single dataset source.
+    Such a job is a copy job over the filtered feed: term() translates feeds, feed lengths and tokens into the
+    coordinates of the filtered feed (count of kept entries before the position) and the unchanged model is used."""
+    out = []
+    for b in (1, 2, 3, 4):
+        for k in (0, 1, 2):
+            n = (k + 2) * b + 1
+            ids = list(range(1, n + 1))
+            drop = ids[k * b:(k + 1) * b]
+            w = W(0, [(i, 1, 0, 0) for i in ids])
+            out.append(mk([w, R(True), R(), R()], batch=b, dropids=drop))
+            out.append(mk([w, R(), R(True), R()], batch=b, dropids=drop))
+            out.append(mk([SW([(100, 1, 0, 0)]), w, R(), W(0, [(n + 1, 1, 0, 0)]), R(True), R()], batch=b, dropids=drop))
+    return out
 
 
 def witness_cases():
@@ -141,7 +159,7 @@ def witness_cases():
 
 
 def corpus_cases():
-    return []
+    return drop_cases()
 
 
 # value codes: 0 absent; 1..3 one letter; 4..6 two; 10..12 four; 13..15 five letters
@@ -346,7 +364,29 @@ def term(c, o):
     return t
 
 
+def _kept(c, ts):
+    d = set(c.get("dropids") or [])
+    return [t for t in ts if t[0] not in d]
+
+
+def _untransform(c, o):
+    """copy job with a filtering transform -> the same history as a plain copy job over the filtered feed"""
+    d = set(c.get("dropids") or [])
+    if not d:
+        return c, o
+    srcs = o.get("srcs") or []
+    pos = lambda k, n: (len(_kept(c, srcs[k][:n])) if 0 <= k < len(srcs) and n >= 0 else n)
+    c2 = dict(c)
+    c2["ops"] = [dict(op, es=_kept(c, op["es"])) if op["op"] == "w" else op for op in c["ops"]]
+    o2 = dict(o)
+    o2["srcs"] = [_kept(c, f) for f in srcs]
+    o2["runs"] = [dict(r, token=[pos(k, t) for k, t in enumerate(r.get("token") or [])],
+                       srclens=[pos(k, n) for k, n in enumerate(r.get("srclens") or [])]) for r in o.get("runs") or []]
+    return c2, o2
+
+
 def _term(c, o):
+    c, o = _untransform(c, o)
     runs = list(o.get("runs") or [])
     ops = []
     ri = 0
